@@ -39,6 +39,10 @@ type Case struct {
 	// while it marshals the response message after the After-th one
 	// (streaming kinds with the binary codec only).
 	InMarshal bool `json:"in_marshal,omitempty"`
+	// Overlap: the handler pauses (1 s, virtual) right before it panics, and
+	// meanwhile another, non-panicking call through the SAME handler starts and
+	// returns normally.
+	Overlap bool `json:"overlap,omitempty"`
 }
 
 const marshalTrap = 424242
@@ -133,6 +137,9 @@ func handlerProg(c Case) (*prog.HandlerProg, []prog.Msg) {
 	if c.Panic != "" && c.InMarshal {
 		hp.Steps = append(hp.Steps, prog.HStep{Op: "send", Msg: &prog.Msg{N: marshalTrap}})
 	} else if c.Panic != "" && !c.InInterceptor {
+		if c.Overlap {
+			hp.Steps = append(hp.Steps, prog.HStep{Op: "sleep", D: 1e9})
+		}
 		if c.CtxDone {
 			hp.Steps = append(hp.Steps, prog.HStep{Op: "waitctx"})
 		}
@@ -213,10 +220,31 @@ func run(c Case, withRecover bool) (*prog.CResult, *memnet.Exchange, []recCall) 
 		ctx, cancelT = context.WithTimeout(ctx, time.Second) // virtual time
 		defer cancelT()
 	}
+	companionDone := make(chan struct{})
+	if c.Overlap && c.Panic != "" {
+		go func() {
+			defer close(companionDone)
+			time.Sleep(100 * time.Millisecond) // the main call's handler is pausing by now
+			wp := *cp
+			wp.Header = []prog.KV{{K: "X-Verif-No-Panic", V: "1"}}
+			_ = prog.RunClient(context.Background(), mem, c.Cfg, &wp, nil)
+		}()
+	} else {
+		close(companionDone)
+	}
 	res := prog.RunClient(ctx, mem, c.Cfg, cp, cancel)
-	ex := mem.Last()
+	<-companionDone
+	var ex *memnet.Exchange
+	for _, e := range mem.Exchanges() {
+		if e.ReqHeader.Get("X-Verif-No-Panic") == "" {
+			ex = e // the call under test (the companion may have started later)
+		}
+	}
 	if ex != nil {
 		<-ex.HandlerDone()
+	}
+	for _, e := range mem.Exchanges() {
+		<-e.HandlerDone()
 	}
 	mu.Lock()
 	defer mu.Unlock()
@@ -355,6 +383,9 @@ func gen(t *rapid.T) Case {
 		// raised inside conn.Send (the codec panics), i.e. while the handler is sending
 		c.InMarshal, c.More, c.Warmups = true, 0, 0
 	}
+	if c.Panic != "" && !c.CtxDone && !c.InInterceptor && !c.InMarshal && rapid.IntRange(0, 5).Draw(t, "overlap") == 0 {
+		c.Overlap = true
+	}
 	c.Before = rapid.IntRange(0, 2).Draw(t, "before")
 	c.Behind = rapid.IntRange(0, 2).Draw(t, "behind")
 	if c.InInterceptor {
@@ -378,7 +409,7 @@ func gen(t *rapid.T) Case {
 
 var spec = pbt.Spec[Case]{
 	Prop: "C19", Name: "recover", Gen: gen, Check: check,
-	Rule: "rapid-generated panic value (nil, error, *connect.Error, string, int, struct, pointer, runtime error, http.ErrAbortHandler, an error wrapping it) or a no-panic control × 4 RPC kinds × 3 protocols × 2 codecs × panic point (before any receive, after i receives, after j sends, with further sends scheduled; optionally only after the handler's context has ended because the propagated client deadline passed; or raised by an interceptor declared after WithRecover, i.e. nested inside it; or raised inside conn.Send by the handler's codec) × position of WithRecover among 0..4 pass-through interceptors × what the recovery function returns (coded error with details/metadata, plain error) × 0..2 non-panicking calls through the same handler first; oracle: called exactly once with the value a plain deferred recover() yields for the same panic in the same binary (differential against the Go runtime, so both panicnil modes are covered), client receives exactly the returned error after the messages already sent, the abort sentinel is re-raised identically without calling the function, and a non-panicking exchange is byte-identical to the same handler without WithRecover; non-trivial = progress before the panic OR nil/abort value OR interceptors outside the recover interceptor",
+	Rule: "rapid-generated panic value (nil, error, *connect.Error, string, int, struct, pointer, runtime error, http.ErrAbortHandler, an error wrapping it) or a no-panic control × 4 RPC kinds × 3 protocols × 2 codecs × panic point (before any receive, after i receives, after j sends, with further sends scheduled; optionally only after the handler's context has ended because the propagated client deadline passed; or raised by an interceptor declared after WithRecover, i.e. nested inside it; or raised inside conn.Send by the handler's codec; optionally while another, non-panicking call through the same handler starts and finishes) × position of WithRecover among 0..4 pass-through interceptors × what the recovery function returns (coded error with details/metadata, plain error) × 0..2 non-panicking calls through the same handler first; oracle: called exactly once with the value a plain deferred recover() yields for the same panic in the same binary (differential against the Go runtime, so both panicnil modes are covered), client receives exactly the returned error after the messages already sent, the abort sentinel is re-raised identically without calling the function, and a non-panicking exchange is byte-identical to the same handler without WithRecover; non-trivial = progress before the panic OR nil/abort value OR interceptors outside the recover interceptor",
 }
 
 func TestRecover(t *testing.T) { pbt.Run(t, spec) }
